@@ -397,6 +397,10 @@ pub fn run(rep: &Report) {
     rep.set_rule("directed graphs over 2-9 templates (and chains/rings of 2-32): at most one extends edge per node, 0-2 include edges placed at top level, inside a block, inside a component body, inside a capture, inside a dead branch or inside a loop; targets may be missing; templates live in no directory or in one of three directories of which up to two are fallback prefixes (in either order), so that references spelled with short names resolve through prefixes and exact names shadow prefixed ones; self-loops, 2-cycles, long cycles, cycles entered from a tail, several faults at once. Oracle: independent graph analysis on the generated edges after resolution (exact name, then prefixes in order): any unresolved target, extends cycle or include cycle -> rejected, otherwise accepted; with exactly one fault class the ErrorKind (or message for unknown include targets) must be the corresponding one. Every accepted set is rendered from every template and must return. Registration and rendering run in worker subprocesses; a worker death is pinpointed and reported. Non-trivial: graph with a cycle, a dangling edge or depth >= 4; distinct by (sources, prefixes).");
     rep.assume("termination is checked for the generated depths (<= 32) in the reference environment; with several fault classes present only rejected-vs-accepted is compared (which error is reported first is not specified)");
     for k in rep.known.clone() {
+        // crash-class repros run in the `fixed` worker family (a regression would abort this process)
+        if k.repro.get("crash_class").and_then(|x| x.as_bool()).unwrap_or(false) {
+            continue;
+        }
         if let Some(Err(f)) = replay(rep, &k.repro) {
             rep.fail(f);
         }
